@@ -1,6 +1,8 @@
 """C06 - operators and conversions on primitive values follow ECMAScript.
 Contracts on values.to_* / VM._to_int32 ... and on the per-opcode slices of VM._execute_opcode."""
 from pyvc.api import *
+from pyvc import groups
+from pyvc.groups import ob
 from microjs.values import UNDEFINED, NULL
 import specs.es_core as CORE
 import specs.es_ops as OPS
@@ -191,3 +193,41 @@ register(fn2, id="C06.helper.js_mod", prop="C06", target=function("microjs.vm", 
          native=_fn("microjs.vm", "js_mod"), bind={"SPEC": OPS.num_rem}, quick=False)
 register(never_raises2, id="C06.helper.js_pow", prop="C06", target=function("microjs.vm", "js_pow"),
          native=_fn("microjs.vm", "js_pow"), quick=False)
+
+
+# ---- bounded: assignment and update expressions on every kind of target ------------------------------------------------
+def _assign_chunk(cases):
+    from microjs import Context
+    bad = []
+    for cid, src, exp in cases:
+        try:
+            got = Context(time_limit=5).eval(src)
+        except BaseException as e:  # noqa
+            got = f"!{type(e).__name__}: {e}"[:120]
+        if got != exp:
+            bad.append((cid, src, got, exp))
+    return len(cases), bad
+
+
+@groups.group(id="C06.bounded.assignment", prop="C06", kind="B", functions=["microjs.compiler:Compiler._compile_expression"])
+def c06_assignment(tier="quick", seed=0):
+    """value of the expression, stored value and the value seen through a closure for =, the 11 compound operators
+    and prefix/postfix ++/-- on globals, locals, captured locals, parameters, variables of enclosing functions,
+    catch parameters, members and elements, over primitive operands (expected values from the spec operators)"""
+    import multiprocessing as mp
+    import specs.gen_bindings as GB
+    values = None if tier == "thorough" else ["5", "'5'", "true", "null", "undefined", "-0"]
+    cs = list(GB.cases(values=values))
+    chunks = [cs[i::16] for i in range(16)]
+    with mp.get_context("fork").Pool(16) as pool:
+        rs = pool.map(_assign_chunk, chunks)
+    by = {}
+    for cid, src, exp in cs:
+        by.setdefault(cid.split("/")[0], [0, None])[0] += 1
+    for n, bad in rs:
+        for cid, src, got, exp in bad:
+            e = by[cid.split("/")[0]]
+            if e[1] is None:
+                e[1] = (cid, src, got, exp)
+    return [ob(f"C06.bounded.assignment.{k}", b is None, "B", f"{n} (form, operand) cases" if b is None else f"{b[0]}: engine {b[2]!r} expected {b[3]!r}",
+               witness=(b[1] if b else None), confirmed=True if b else None, domain=n) for k, (n, b) in by.items()]
